@@ -191,8 +191,9 @@ func (v ReceiverValidator) validateNonBodyParam(
 		return &diag
 	}
 
-	isErrType := param.Type.PkgPath == "" && param.Type.Name == "error"
-	isMapType := param.Type.PkgPath == "" && strings.HasPrefix(param.Type.Name, "map[")
+	// A usage's PkgPath is that of the declaring file, never empty - the bare names identify these two
+	isErrType := param.Type.Name == "error"
+	isMapType := strings.HasPrefix(param.Type.Name, "map[")
 	isAnEnum := param.Type.SymbolKind == common.SymKindEnum
 
 	isAnAlias, isAPrimitiveAlias := isPrimitiveAlias(param)
